@@ -64,6 +64,11 @@ def items(b, tag):
                        b.block([b.expr_stmt(b.bin('Assign', v('buf' + tag), b.string('w')))]))], name='Mem' + tag),
         'free_function': lambda: b.supart(b.function('Function', 'free' + tag, [b.param(b.ty('String'), 'Memory', 's')], [],
                                                      b.block([b.expr_stmt(b.bin('Subtract', v('a'), n(1))), req(v('c'), b.string('m'))]))),
+        # a free function and a file-level constant with an ERC20 operation / arithmetic in them: top-level items that are no contract-like
+        # definition (nothing of the definition that happens to stand in front of them may be attributed to them)
+        'free_function_erc20': lambda: b.supart(b.function('Function', 'sweep' + tag, [b.param(b.ty('Address'), None, 't'), b.param(b.ty('Address'), None, 'o')], [],
+                                                           b.block([b.expr_stmt(b.call(b.member(b.call(v('IERC20'), [v('t')]), 'transfer'), [v('o'), n(1)])),
+                                                                    b.expr_stmt(b.call(b.member(v('t'), 'approve'), [v('o'), b.bin('Multiply', b.bin('Divide', v('a'), n(2)), n(4))]))]))),
         'struct': lambda: b.supart(b.struct('T' + tag, [(b.ty('Uint', 8), 'a'), (b.ty('Uint', 256), 'bq'), (b.ty('Uint', 8), 'c')])),
         'empty_contract': lambda: fam.contract_with(b, [], name='Empty' + tag),
         # the same function NAME in both items with a different protection status (a verdict cached per name would leak across items)
@@ -98,9 +103,13 @@ def run_ids(e, d, su):
     fn = e.func(oracle.MIR_NAME[d])
     paths = e.explore(lambda en: en.call_mir(fn, [su]), max_paths=2000)
     out = []
+    loc_names = getattr(e, '_c19_loc_names', None)
     for r in paths:
         if r.outcome == 'unsupported':
             raise Unsupported(str(r.value))
+        if loc_names and any(fam.loc_vars_in(c, loc_names) for c in r.pc):
+            # byte offsets are free symbols of the encoding (families.run_case): a path that branches on them is decided on the compiled code
+            raise Unsupported('the detector branches on byte offsets, which the encoding leaves free')
         out.append(('panic', r.value.msg) if r.outcome == 'panic' else frozenset(sol.loc_id(x) for x in r.value.items))
     return out
 
@@ -112,6 +121,7 @@ def job(chk, todo):
         i1, i2 = items(b, 'A')[k1](), items(b, 'B')[k2]()
         whole, a1, a2 = compose(b, place, i1, i2, value)
         label = '%s + %s, pragma %s %s' % (k1, k2, value, place)
+        e._c19_loc_names = {v_.decl().name() for v_ in b.loc_vars}
         for d in DETECTORS:
             try:
                 rw, r1, r2 = run_ids(e, d, whole), run_ids(e, d, a1), run_ids(e, d, a2)
@@ -210,7 +220,8 @@ def body(chk):
         bodyless = [t for t in todo if t[2] == 'first' and 'bodyless' in t[0] and t[1] in ('contract_rich', 'free_function', 'library', 'contract_memory_params', 'empty_contract')] \
             + [t for t in todo if t[2] == 'first' and 'bodyless' in t[1] and t[0] in ('contract_memory_params', 'free_function')]
         libs = [t for t in todo if t[2] == 'first' and 'library_public_functions' in (t[0], t[1]) and (set((t[0], t[1])) & {'contract_rich', 'interface', 'empty_contract', 'free_function', 'library', 'contract_ctor_first'})]
-        bodyless = bodyless + libs
+        frees = [t for t in todo if t[2] == 'first' and 'free_function_erc20' in (t[0], t[1]) and (set((t[0], t[1])) & {'library', 'library_public_functions', 'interface', 'contract_rich', 'struct', 'empty_contract'})]
+        bodyless = bodyless + libs + frees
         core = bodyless + core
         todo = (core[:40 + len(bodyless)] + todo[:40] + unicode_first[:6])
     chk.bounds = {'files': '%d pairs of top-level items x %d detectors' % (len(todo), len(DETECTORS)),
